@@ -270,12 +270,12 @@ func SplitOptions(n int) [][]int {
 		}
 		opts = append(opts, c)
 	}
-	add(1, n-1)       // growing chunks
-	add(n-1, 1)       // shrinking
-	add(n/2, n-n/2)   // halves
-	add(2, 3, n-5)    // growing three
-	add(n-5, 3, 2)    // shrinking three
-	add(0, n)         // empty leading chunk
+	add(1, n-1)     // growing chunks
+	add(n-1, 1)     // shrinking
+	add(n/2, n-n/2) // halves
+	add(2, 3, n-5)  // growing three
+	add(n-5, 3, 2)  // shrinking three
+	add(0, n)       // empty leading chunk
 	add(n/3, n/3+1, n-2*(n/3)-1)
 	return opts
 }
